@@ -51,6 +51,12 @@ package generator
 //@   at call rule.Build#1 assert RuleOrderOK(rule, ctx, source, target)
 //@   at call typeMismatch#1 assert !builder.AnyPureRule(ctx, source, target)
 
+// C06: a custom function on the underlying types is looked for BEFORE any automatic rule (skipCopySameType included)
+//@ lemma C06_underlying_methods_first()
+//@   props C06 C03
+//@   ensures len(BuildSteps) == 11 && dynIs[*builder.UseUnderlyingTypeMethods](BuildSteps[0])
+//@   ensures forall i int :: 1 <= i && i < len(BuildSteps) ==> !dynIs[*builder.UseUnderlyingTypeMethods](BuildSteps[i])
+
 //@ func generator.assignNoLookup
 //@   props C03 C11 C04 C13
 //@   propagates
@@ -70,6 +76,8 @@ package generator
 //@ func validateMethods
 //@   props C09 C03
 //@   maprange 1 unordered-result signatures
+// the collected keys are pairwise distinct (map keys); the comparator must decide every such pair
+//@   sortcall 1 total
 
 //@ func fileManager.renderFiles
 //@   props C09 C15
@@ -77,7 +85,7 @@ package generator
 
 // ---- C07: wrapping mode selection ----
 //@ func generator.wrap
-//@   props C07 C13
+//@   props C07 C13 C18 C12
 //@   pure
 //@   requires@C13 builder.CtxOK(ctx) && (forall j int :: 0 <= j && j < len(errPath) ==> builder.PathElem(errPath[j]))
 //@   ensures ctx.Conf.WrapErrorsUsing != "" ==> result == errPath.WrapErrorsUsing(ctx.Conf.WrapErrorsUsing, errStmt)
@@ -149,7 +157,10 @@ package generator
 // C13 (progress of the dirty fix-point): a method is only marked dirty for a type seen before if a sub
 // method is then created for it
 //@ func generator.shouldCreateSubMethod
-//@   props C06
+//@   props C06 C12 C08
+// whether the pair counts as an enum pair is decided with the settings of the method that is being generated
+//@   at@C12 call source.Enum#1 assert arg0 != nil && arg0.Enabled == ctx.Conf.Enum.Enabled && arg0.Unknown == ctx.Conf.Enum.Unknown && same(arg0.Excludes, ctx.Conf.Enum.Excludes)
+//@   at@C12 call target.Enum#1 assert arg0 != nil && arg0.Enabled == ctx.Conf.Enum.Enabled && arg0.Unknown == ctx.Conf.Enum.Unknown && same(arg0.Excludes, ctx.Conf.Enum.Excludes)
 //@   ensures@C13 old(ctx.HasSeen(source)) ==> result
 //@   ensures@C13 !old(ctx.HasSeen(source)) ==> g.lookup.ByID(ctx.IndexID).Dirty == old(g.lookup.ByID(ctx.IndexID).Dirty)
 //@   requires@C13 builder.GenInv(g) && builder.MethodOK(ctx) && source != nil && target != nil
@@ -174,11 +185,18 @@ package generator
 //@   requires@C13 forall j int :: 0 <= j && j < len(genMethod.OriginPath) ==> method.ValidID(g.lookup, genMethod.OriginPath[j])
 //@   ensures@C13 builder.GenInv(g)
 
+// how a method is referred to from generated code: a custom call expression as given; a generated method of a
+// struct converter through the receiver; a generated function of a function-format converter by its bare name
+// (it lives in the output package); everything else -- extend functions, and the user's own function variables
+// of a goverter:variables block, which live in the package that DECLARES them -- qualified by its package
 //@ func generator.qualMethod
 //@   props C01 C18 C13
 //@   requires@C13 g != nil && g.conf != nil && m != nil
 //@   assigns nothing
 //@   ensures result != nil
+//@   ensures@C01 m.CustomCall == nil && g.conf.OutputFormat == config.FormatStruct && m.Generated ==> result == jen.Id(xtype.ThisVar).Dot(m.Name)
+//@   ensures@C01 m.CustomCall == nil && g.conf.OutputFormat == config.FormatFunction && m.Generated ==> result == jen.Id(m.Name)
+//@   ensures@C01 m.CustomCall == nil && !(m.Generated && (g.conf.OutputFormat == config.FormatStruct || g.conf.OutputFormat == config.FormatFunction)) ==> result == jen.Qual(m.Package, m.Name)
 
 // ---- C17/C06: every registration error of a declared method aborts the generation ----
 //@ func setupGenerator
@@ -226,3 +244,6 @@ package generator
 //@   ensures@C13 builder.GenInv(g)
 //@   ensures !old(target.Pointer && target.PointerInner.Struct) ==> err != nil
 //@   ensures !old(source.Struct) && !old(source.Pointer && source.PointerInner.Struct) ==> err != nil
+// the update is generated field by field by the struct rule itself (no rule lookup: an update never degenerates into
+// `target = source`), into the struct the update argument points to
+//@   at@C10 call s.Assign#1 assert arg1 == ctx && arg2 == assignTo && arg3 == sourceID && arg5 == target.PointerInner && (old(source.Struct) ==> arg4 == old(source))
